@@ -8,7 +8,7 @@ import (
 	"strings"
 )
 
-var c13Shapes = []string{"p1", "p10", "p11", "p2", "p3", "p4", "p5"}
+var c13Shapes = []string{"p1", "p10", "p11", "p14", "p15", "p2", "p3", "p4", "p5"}
 
 // customC13 runs the three families: history independence (plain build),
 // concurrent instances under the race detector (real bytebufferpool), and
@@ -65,6 +65,18 @@ func customC13(r *Run) ([]Crash, error) {
 			}
 		}
 		r.M.Counters["race_detector_processes"] += int64(procs)
+		// cold start: processes whose first use of the library is concurrent
+		cold := 4
+		saved = r.Only
+		r.Only = ""
+		cr = r.runShards(rbin, cold, r.timeout(), []string{"-args", "mode=cold"}, []string{"GORACE=halt_on_error=0 log_path=" + logBase})
+		r.Only = saved
+		for _, c := range cr {
+			if !strings.Contains(c.Exit, "exit status 66") {
+				crashes = append(crashes, c)
+			}
+		}
+		r.M.Counters["cold_start_processes"] += int64(cold)
 		r.collectRaceReports(logBase)
 	}
 	// family 3: shadow allocator
